@@ -22,6 +22,7 @@
 //     explicit results followed by the pointer parameters it assigns, in declaration order.  A single `error`
 //     result becomes `Option`: `return nil` is `some (…)`, any other return is `none` (state discarded: the
 //     translated functions return errors before they assign anything).  `time.Time` and `time.Duration` are `Int`.
+//
 // Anything else (calls outside the translated set, break/continue, defer, goroutines, switch, range, …) is
 // refused: the function is emitted as a comment and the tie theorem that mentions it no longer builds.
 package main
@@ -68,11 +69,11 @@ type translator struct {
 	fn    string
 	aux   []string
 	nloop int
-	named []string // named results
-	muts  []string // pointer parameters the function assigns through, in declaration order
-	isErr bool     // the single result is `error`
-	rbool []bool   // explicit results that are bool
-	gty   map[string]string // Go integer type of every local variable / parameter (int32 arithmetic wraps, see goType)
+	named []string              // named results
+	muts  []string              // pointer parameters the function assigns through, in declaration order
+	isErr bool                  // the single result is `error`
+	rbool []bool                // explicit results that are bool
+	gty   map[string]string     // Go integer type of every local variable / parameter (int32 arithmetic wraps, see goType)
 	brk   func(sc scope) string // what `break` yields inside the loop being translated (nil outside loops)
 	cont  func(sc scope) string // what `continue` yields there: the post statement, then the next round
 	fuel  bool                  // the function contains a loop whose condition is a method call: it takes a fuel argument
@@ -1478,7 +1479,13 @@ func (t *translator) region(fd *ast.FuncDecl, r regionSpec) {
 	}
 	vars := sorted(acc)
 	var binders, rtys []string
-	for _, n := range sorted(func() map[string]bool { m := map[string]bool{}; for n := range sc { m[n] = true }; return m }()) {
+	for _, n := range sorted(func() map[string]bool {
+		m := map[string]bool{}
+		for n := range sc {
+			m[n] = true
+		}
+		return m
+	}()) {
 		binders = append(binders, fmt.Sprintf("(%s : %s)", lname(n), sc[n]))
 	}
 	for _, v := range vars {
